@@ -1842,6 +1842,34 @@ impl Db {
 		self.inner.clean_logs()?;
 		Ok(())
 	}
+
+	/// Verification hook: one `enact_logs(false)` call (one record, or end-of-file handling).
+	#[cfg(parity_db_verif)]
+	pub fn verif_enact_one(&self) -> Result<bool> {
+		self.inner.enact_logs(false)
+	}
+
+	/// Verification hook: put the handle into the background-error state exactly as a
+	/// failing worker would (`store_err`).
+	#[cfg(parity_db_verif)]
+	pub fn verif_store_err(&self, e: Error) {
+		self.inner.store_err(Err(e))
+	}
+
+	/// Verification hook: sizes of the in-memory pipeline stages
+	/// (queued commits, commit-overlay entries, dirty logs).
+	#[cfg(parity_db_verif)]
+	pub fn verif_pipeline_sizes(&self) -> (usize, usize, usize) {
+		let queued = self.inner.commit_queue.lock().commits.len();
+		let overlay = self
+			.inner
+			.commit_overlay
+			.read()
+			.iter()
+			.map(|o| o.indexed.len() + o.address.len() + o.btree_indexed.len())
+			.sum();
+		(queued, overlay, self.inner.log.num_dirty_logs())
+	}
 }
 
 impl Drop for Db {
